@@ -452,3 +452,64 @@ pub fn run_call(text: &str, first: bool, nou: bool, x: Option<&str>) -> CallOut 
     }
     out
 }
+
+// ---------------------------------------------------------------------------
+// call level: yash_env::input::EofGuard
+// ---------------------------------------------------------------------------
+
+/// Inner input delivering `count` end-of-file conditions, then the lines of `inner`.
+struct EofStub<T> {
+    inner: T,
+    count: usize,
+}
+
+impl<T: yash_env::input::Input> yash_env::input::Input for EofStub<T> {
+    async fn next_line(&mut self, context: &yash_env::input::Context) -> yash_env::input::Result {
+        if let Some(remaining) = self.count.checked_sub(1) {
+            self.count = remaining;
+            Ok(String::new())
+        } else {
+            self.inner.next_line(context).await
+        }
+    }
+}
+
+/// One `next_line` call of `EofGuard` over `k` end-of-file conditions followed by
+/// "line\n".  Returns (what was written to standard error, the line returned, panic message).
+pub fn run_guard(inter: bool, tty: bool, ign: bool, k: usize, message: &str) -> (String, String, String) {
+    use futures_util::FutureExt as _;
+    use yash_env::input::{Context, EofGuard, IgnoreEofConfig, Input as _, Memory};
+    use yash_env::option::{IgnoreEof, Interactive, State};
+    let message = message.to_string();
+    let r = yvcommon::util::catch(move || {
+        let system = VirtualSystem::new();
+        let state = Rc::clone(&system.state);
+        set_body(&state, "/dev/stdin", tty, vec![]);
+        let mut env = Env::with_system(Rc::new(Concurrent::new(system)));
+        env.options.set(Interactive, if inter { State::On } else { State::Off });
+        env.options.set(IgnoreEof, if ign { State::On } else { State::Off });
+        env.any.insert(Box::new(IgnoreEofConfig::with_message(message)));
+        let line = {
+            let ref_env = RefCell::new(&mut env);
+            let mut guard = EofGuard::new(EofStub { inner: Memory::new("line\n"), count: k }, Fd::STDIN, &ref_env);
+            match guard.next_line(&Context::default()).now_or_never() {
+                Some(Ok(l)) => l,
+                Some(Err(e)) => format!("error: {e}"),
+                None => "pending".to_string(),
+            }
+        };
+        let st = state.borrow();
+        let err = match st.file_system.get("/dev/stderr") {
+            Ok(inode) => match &inode.borrow().body {
+                FileBody::Regular { content, .. } => String::from_utf8_lossy(content).into_owned(),
+                _ => String::new(),
+            },
+            Err(_) => String::new(),
+        };
+        (err, line)
+    });
+    match r {
+        Ok((e, l)) => (e, l, String::new()),
+        Err(p) => (String::new(), String::new(), p),
+    }
+}
